@@ -606,6 +606,12 @@ where
     pub fn secret_key(&self) -> Result<&NamespaceSecret, ReadOnly> {
         self.info.capability.secret_key()
     }
+
+    /// Verification hook: access to the in-memory replica info (subscribers, callbacks).
+    #[cfg(iroh_docs_verif)]
+    pub fn verif_info_mut(&mut self) -> &mut ReplicaInfo {
+        &mut self.info
+    }
 }
 
 /// Error that occurs trying to access the [`NamespaceSecret`] of a read-only [`Capability`].
